@@ -24,6 +24,16 @@ func init() {
 	register("C20", func(x *X) error {
 		x.UseNormalizedAST()
 
+		// Extraction problems inside a soft section concern change detectors only (Props/C20Pins.lean): they are
+		// reported as `pinNotes`, not as a failure of the extractor.
+		var pinNotes []string
+		soft := func(f func()) {
+			n := len(x.errs)
+			f()
+			pinNotes = append(pinNotes, x.errs[n:]...)
+			x.errs = x.errs[:n]
+		}
+
 		// ---- logger: the table of log fields, the documented list, the format constants ----
 		var fieldsLit *ast.CompositeLit
 		if e := x.valueSpec("logger", "fields"); e != nil {
@@ -31,41 +41,45 @@ func init() {
 			fieldsLit, _ = e.(*ast.CompositeLit)
 		}
 		x.defStrList("docFields", c20DocFields(x))
-		for _, c := range []string{"CommonFormat", "CombinedFormat"} {
-			if e := x.valueSpec("logger", c); e != nil {
-				if s, ok := x.strLit(e); ok {
-					x.defStr(c, s)
-				} else {
-					x.fail("logger.%s is not a string literal", c)
+		soft(func() {
+			for _, c := range []string{"CommonFormat", "CombinedFormat"} {
+				if e := x.valueSpec("logger", c); e != nil {
+					if s, ok := x.strLit(e); ok {
+						x.defStr(c, s)
+					} else {
+						x.fail("logger.%s is not a string literal", c)
+					}
 				}
 			}
-		}
+		})
 
 		// ---- atoi: scratch array size and the pad arguments at its call sites ----
-		if fd := x.funcDecl("logger", "", "atoi"); fd != nil {
-			x.defNat("atoiBufLen", c20ByteArrayLen(x, "logger", fd))
-		}
-		pads := map[uint64]bool{}
-		for _, f := range x.files("logger") {
-			for _, c := range x.calls(f, "atoi") {
-				if len(c.Args) != 3 {
-					x.fail("atoi call with %d arguments", len(c.Args))
-					continue
-				}
-				v, ok := c20ConstInt(x, "logger", c.Args[2])
-				if !ok {
-					x.fail("atoi pad argument is not an integer constant: %s", x.src(c))
-					continue
-				}
-				pads[v] = true
+		soft(func() {
+			if fd := x.funcDecl("logger", "", "atoi"); fd != nil {
+				x.defNat("atoiBufLen", c20ByteArrayLen(x, "logger", fd))
 			}
-		}
-		var padList []uint64
-		for p := range pads {
-			padList = append(padList, p)
-		}
-		sort.Slice(padList, func(i, j int) bool { return padList[i] < padList[j] })
-		x.defRaw("def atoiPads : List Nat := " + c20NatList(padList))
+			pads := map[uint64]bool{}
+			for _, f := range x.files("logger") {
+				for _, c := range x.calls(f, "atoi") {
+					if len(c.Args) != 3 {
+						x.fail("atoi call with %d arguments", len(c.Args))
+						continue
+					}
+					v, ok := c20ConstInt(x, "logger", c.Args[2])
+					if !ok {
+						x.fail("atoi pad argument is not an integer constant: %s", x.src(c))
+						continue
+					}
+					pads[v] = true
+				}
+			}
+			var padList []uint64
+			for p := range pads {
+				padList = append(padList, p)
+			}
+			sort.Slice(padList, func(i, j int) bool { return padList[i] < padList[j] })
+			x.defRaw("def atoiPads : List Nat := " + c20NatList(padList))
+		})
 
 		// ---- the field functions: where the calendar fields come from; writes to the event ----
 		tw := &c20TimeWalk{x: x, dir: "logger"}
@@ -102,45 +116,67 @@ func init() {
 		sort.Strings(tw.endUses)
 		x.defStrList("methodsCalledOnEnd", c20Uniq(tw.endUses))
 		x.defStrList("rendererWritesToEvent", tw.eventWrites)
-		if tw.months != "" {
-			if e := x.valueSpec("logger", tw.months); e != nil {
-				x.defStrList("shortMonthNames", c20StrElems(x, e))
+		soft(func() {
+			if tw.months != "" {
+				if e := x.valueSpec("logger", tw.months); e != nil {
+					x.defStrList("shortMonthNames", c20StrElems(x, e))
+				}
+			} else {
+				x.fail("logger: no month-name table ([]string indexed by a wall-clock renderer) found")
 			}
-		} else {
-			x.fail("logger: no month-name table ([]string indexed by a wall-clock renderer) found")
-		}
+		})
 
-		// pattern.write: the early return on an empty buffer (D26) and the single newline
-		if fd := x.anyFuncDecl("logger", "write"); fd != nil {
+		// pattern.write: no newline for an empty buffer (D26) and the single newline call, in either form:
+		// `if buf.Len() == 0 { return }; newline` or `if buf.Len() != 0 { newline }`
+		soft(func() {
+			fd := x.anyFuncDecl("logger", "write")
+			if fd == nil {
+				x.fail("logger: method write not found")
+				return
+			}
 			skip := false
 			nl := 0
 			buf := ""
 			if ps := c20ParamNames(fd.Type); len(ps) > 0 {
 				buf = ps[0] // role: the buffer is the first parameter
 			}
-			x.WalkInlined("logger", fd, func(n ast.Node) bool {
-				if is, ok := n.(*ast.IfStmt); ok && len(is.Body.List) == 1 && is.Else == nil {
-					if _, ok := is.Body.List[0].(*ast.ReturnStmt); ok && c20IsLenZero(is.Cond, buf) {
-						skip = true
-					}
+			isNewline := func(n ast.Node) bool {
+				c, ok := n.(*ast.CallExpr)
+				if !ok || len(c.Args) != 1 {
+					return false
 				}
-				if c, ok := n.(*ast.CallExpr); ok && len(c.Args) == 1 {
-					if sel, ok := c.Fun.(*ast.SelectorExpr); ok {
-						switch sel.Sel.Name {
-						case "WriteRune", "WriteByte", "WriteString":
-							if s, ok := x.strLit(c.Args[0]); ok && s == "\n" {
-								nl++
-							}
+				sel, ok := c.Fun.(*ast.SelectorExpr)
+				if !ok {
+					return false
+				}
+				switch sel.Sel.Name {
+				case "WriteRune", "WriteByte", "WriteString":
+					s, ok := x.strLit(c.Args[0])
+					return ok && s == "\n"
+				}
+				return false
+			}
+			x.WalkInlined("logger", fd, func(n ast.Node) bool {
+				if is, ok := n.(*ast.IfStmt); ok && is.Else == nil {
+					if len(is.Body.List) == 1 {
+						if _, ok := is.Body.List[0].(*ast.ReturnStmt); ok && c20IsLenZero(is.Cond, buf) {
+							skip = true
 						}
 					}
+					if c20IsLenNonZero(is.Cond, buf) {
+						guarded := false
+						ast.Inspect(is.Body, func(k ast.Node) bool { guarded = guarded || isNewline(k); return true })
+						skip = skip || guarded
+					}
+				}
+				if isNewline(n) {
+					nl++
 				}
 				return true
 			})
-			x.defBool("writeReturnsEarlyOnEmptyBuffer", skip)
+			x.defBool("writeSkipsNewlineOnEmptyBuffer", skip)
 			x.defNat("writeNewlineCalls", uint64(nl))
-		} else {
-			x.fail("logger: method write not found")
-		}
+		})
 
 		// ---- Logger.Log: order of Pool.Get / render / Lock / Write / Unlock / Pool.Put; the logger's state ----
 		poolVars := map[string]bool{}
@@ -276,11 +312,73 @@ func init() {
 							site[x.src(kv.Key)] = kv.Value
 						}
 					}
-					// Response: address of an http.Response literal (never nil)
-					respLit := false
-					if u, ok := site["Response"].(*ast.UnaryExpr); ok && u.Op == token.AND {
-						if inner, ok := u.X.(*ast.CompositeLit); ok && x.src(inner.Type) == "http.Response" {
-							respLit = true
+					// Response: the address of an http.Response literal (never nil), written in place or through a
+					// local that is assigned exactly once, from such a literal
+					respLitOf := func(e ast.Expr) *ast.CompositeLit {
+						if u, ok := e.(*ast.UnaryExpr); ok && u.Op == token.AND {
+							if inner, ok := u.X.(*ast.CompositeLit); ok && x.src(inner.Type) == "http.Response" {
+								return inner
+							}
+						}
+						return nil
+					}
+					resp := respLitOf(site["Response"])
+					if id, ok := site["Response"].(*ast.Ident); ok && resp == nil {
+						assigns := 0
+						ast.Inspect(fd.Body, func(k ast.Node) bool {
+							if as, ok := k.(*ast.AssignStmt); ok {
+								for i, l := range as.Lhs {
+									if li, ok := l.(*ast.Ident); ok && li.Name == id.Name {
+										assigns++
+										if len(as.Lhs) == len(as.Rhs) {
+											resp = respLitOf(as.Rhs[i])
+										}
+									}
+								}
+							}
+							return true
+						})
+						if assigns != 1 {
+							resp = nil
+						}
+					}
+					respLit := resp != nil
+					// StatusCode / ContentLength of that literal: fields of one and the same variable, and that
+					// variable is the ResponseWriter handed to the handler (`h.ServeHTTP(rw, r)`)
+					fromWriter := false
+					if resp != nil {
+						vals := map[string]ast.Expr{}
+						for _, el := range resp.Elts {
+							if kv, ok := el.(*ast.KeyValueExpr); ok {
+								vals[x.src(kv.Key)] = kv.Value
+							}
+						}
+						root := func(e ast.Expr) string {
+							name := ""
+							ast.Inspect(e, func(k ast.Node) bool {
+								if se, ok := k.(*ast.SelectorExpr); ok {
+									if id, ok := se.X.(*ast.Ident); ok && name == "" {
+										name = id.Name
+									}
+								}
+								return true
+							})
+							return name
+						}
+						if vals["StatusCode"] != nil && vals["ContentLength"] != nil {
+							a, b := root(vals["StatusCode"]), root(vals["ContentLength"])
+							if a != "" && a == b {
+								ast.Inspect(fd.Body, func(k ast.Node) bool {
+									if c, ok := k.(*ast.CallExpr); ok && len(c.Args) >= 1 {
+										if se, ok := c.Fun.(*ast.SelectorExpr); ok && se.Sel.Name == "ServeHTTP" {
+											if id, ok := c.Args[0].(*ast.Ident); ok && id.Name == a {
+												fromWriter = true
+											}
+										}
+									}
+									return true
+								})
+							}
 						}
 					}
 					// UpstreamAddr: the Host field of the very value passed as UpstreamURL
@@ -302,6 +400,7 @@ func init() {
 					sort.Strings(keys)
 					x.defStrList("eventSiteKeys", keys)
 					x.defBool("eventSiteResponseIsLiteral", respLit)
+					x.defBool("eventSiteStatusAndSizeFromHandlerWriter", fromWriter)
 					x.defBool("eventSiteUpstreamAddrIsHostOfUpstreamURL", addrIsHost)
 					x.defBool("eventSiteRequestIsHandlerParam", reqIsParam)
 					x.defStr("eventSiteFunc", fd.Name.Name)
@@ -313,113 +412,125 @@ func init() {
 			x.fail("no logger.Event literal found in package proxy")
 		}
 
-		// ---- proxy/http_headers.go ----
-		if fd := x.funcDecl("proxy", "", "i32toa"); fd != nil {
-			x.defNat("i32toaBufLen", c20ByteArrayLen(x, "proxy", fd))
-		}
-		if fd := x.funcDecl("proxy", "", "uint16base16"); fd != nil {
-			// b[k] = TABLE[…n…] : position k and the nibble of n it shows; TABLE is whatever package-level table is indexed
-			n := ""
-			if ps := c20ParamNames(fd.Type); len(ps) > 0 {
-				n = ps[0]
+		// ---- proxy: i32toa, uint16base16; uuid.ToString (change detectors) ----
+		soft(func() {
+			if fd := x.funcDecl("proxy", "", "i32toa"); fd != nil {
+				x.defNat("i32toaBufLen", c20ByteArrayLen(x, "proxy", fd))
 			}
-			var pairs []string
-			table := ""
-			ast.Inspect(fd, func(nd ast.Node) bool {
-				as, ok := nd.(*ast.AssignStmt)
-				if !ok || len(as.Lhs) != 1 || len(as.Rhs) != 1 {
+			if fd := x.funcDecl("proxy", "", "uint16base16"); fd != nil {
+				// b[k] = TABLE[…n…] : position k and the nibble of n it shows; TABLE is whatever package-level table is indexed
+				n := ""
+				if ps := c20ParamNames(fd.Type); len(ps) > 0 {
+					n = ps[0]
+				}
+				var pairs []string
+				table := ""
+				ast.Inspect(fd, func(nd ast.Node) bool {
+					as, ok := nd.(*ast.AssignStmt)
+					if !ok || len(as.Lhs) != 1 || len(as.Rhs) != 1 {
+						return true
+					}
+					li, ok1 := as.Lhs[0].(*ast.IndexExpr)
+					ri, ok2 := as.Rhs[0].(*ast.IndexExpr)
+					if !ok1 || !ok2 {
+						return true
+					}
+					tid, ok := ri.X.(*ast.Ident)
+					if !ok {
+						return true
+					}
+					if table != "" && table != tid.Name {
+						x.fail("uint16base16: two different digit tables")
+					}
+					table = tid.Name
+					k, okk := c20ConstInt(x, "proxy", li.Index)
+					nib, okn := c20Nibble(x, ri.Index, n)
+					if !okk || !okn {
+						x.fail("uint16base16: unrecognised digit assignment %s", x.src(as))
+						return true
+					}
+					pairs = append(pairs, fmt.Sprintf("(%d, %d)", k, nib))
 					return true
+				})
+				sort.Strings(pairs)
+				x.defRaw("/-- uint16base16: (position in the template, which 4-bit group of n, 0 = least significant) per digit -/\ndef uint16Nibbles : List (Nat × Nat) := [" + strings.Join(pairs, ", ") + "]")
+				if e := c20FirstStrArg(x, fd); e != "" {
+					x.defStr("uint16Template", e)
 				}
-				li, ok1 := as.Lhs[0].(*ast.IndexExpr)
-				ri, ok2 := as.Rhs[0].(*ast.IndexExpr)
-				if !ok1 || !ok2 {
-					return true
+				if table == "" {
+					x.fail("uint16base16: no digit table")
+				} else if e := x.valueSpec("proxy", table); e != nil {
+					if s, ok := c20ByteTable(x, "proxy", e); ok {
+						x.defStr("digit16", s)
+					} else {
+						x.fail("proxy.%s is not a byte table", table)
+					}
 				}
-				tid, ok := ri.X.(*ast.Ident)
-				if !ok {
-					return true
-				}
-				if table != "" && table != tid.Name {
-					x.fail("uint16base16: two different digit tables")
-				}
-				table = tid.Name
-				k, okk := c20ConstInt(x, "proxy", li.Index)
-				nib, okn := c20Nibble(x, ri.Index, n)
-				if !okk || !okn {
-					x.fail("uint16base16: unrecognised digit assignment %s", x.src(as))
-					return true
-				}
-				pairs = append(pairs, fmt.Sprintf("(%d, %d)", k, nib))
-				return true
-			})
-			sort.Strings(pairs)
-			x.defRaw("/-- uint16base16: (position in the template, which 4-bit group of n, 0 = least significant) per digit -/\ndef uint16Nibbles : List (Nat × Nat) := [" + strings.Join(pairs, ", ") + "]")
-			if e := c20FirstStrArg(x, fd); e != "" {
-				x.defStr("uint16Template", e)
 			}
-			if table == "" {
-				x.fail("uint16base16: no digit table")
-			} else if e := x.valueSpec("proxy", table); e != nil {
-				if s, ok := c20ByteTable(x, "proxy", e); ok {
-					x.defStr("digit16", s)
-				} else {
-					x.fail("proxy.%s is not a byte table", table)
-				}
-			}
-		}
 
-		// ---- uuid/format.go ----
-		if fd := x.funcDecl("uuid", "", "ToString"); fd != nil {
-			var idx []uint64
-			var dashes []uint64
-			hexTable := ""
-			ast.Inspect(fd, func(n ast.Node) bool {
-				switch v := n.(type) {
-				case *ast.RangeStmt:
-					e := v.X
-					if id, ok := e.(*ast.Ident); ok { // a package-level table
-						if ve := x.valueSpec("uuid", id.Name); ve != nil {
-							e = ve
-						}
-					}
-					idx = c20IntElems(x, e)
-				case *ast.AssignStmt:
-					if len(v.Lhs) == 1 && len(v.Rhs) == 1 {
-						if ie, ok := v.Lhs[0].(*ast.IndexExpr); ok {
-							if s, ok := x.strLit(v.Rhs[0]); ok && s == "-" {
-								k, ok := c20ConstInt(x, "uuid", ie.Index)
-								if !ok {
-									x.fail("uuid.ToString: dash position is not a constant: %s", x.src(v))
-								}
-								dashes = append(dashes, k)
-							}
-							if ri, ok := v.Rhs[0].(*ast.IndexExpr); ok {
-								if id, ok := ri.X.(*ast.Ident); ok {
-									hexTable = id.Name
-								}
+			// ---- uuid/format.go ----
+			if fd := x.funcDecl("uuid", "", "ToString"); fd != nil {
+				var idx []uint64
+				var dashes []uint64
+				hexTable := ""
+				ast.Inspect(fd, func(n ast.Node) bool {
+					switch v := n.(type) {
+					case *ast.RangeStmt:
+						e := v.X
+						if id, ok := e.(*ast.Ident); ok { // a package-level table
+							if ve := x.valueSpec("uuid", id.Name); ve != nil {
+								e = ve
 							}
 						}
+						idx = c20IntElems(x, e)
+					case *ast.AssignStmt:
+						if len(v.Lhs) == 1 && len(v.Rhs) == 1 {
+							if ie, ok := v.Lhs[0].(*ast.IndexExpr); ok {
+								if s, ok := x.strLit(v.Rhs[0]); ok && s == "-" {
+									k, ok := c20ConstInt(x, "uuid", ie.Index)
+									if !ok {
+										x.fail("uuid.ToString: dash position is not a constant: %s", x.src(v))
+									}
+									dashes = append(dashes, k)
+								}
+								if ri, ok := v.Rhs[0].(*ast.IndexExpr); ok {
+									if id, ok := ri.X.(*ast.Ident); ok {
+										hexTable = id.Name
+									}
+								}
+							}
+						}
 					}
-				}
-				return true
-			})
-			x.defRaw("def uuidIdx : List Nat := " + c20NatList(idx))
-			x.defRaw("def uuidDashes : List Nat := " + c20NatList(dashes))
-			x.defNat("uuidBufLen", c20ByteArrayLen(x, "uuid", fd))
-			if hexTable == "" {
-				x.fail("uuid.ToString: no hex table indexed")
-			} else if e := x.valueSpec("uuid", hexTable); e != nil {
-				if s, ok := c20ByteTable(x, "uuid", e); ok {
-					var vs []uint64
-					for _, c := range []byte(s) {
-						vs = append(vs, uint64(c))
+					return true
+				})
+				x.defRaw("def uuidIdx : List Nat := " + c20NatList(idx))
+				x.defRaw("def uuidDashes : List Nat := " + c20NatList(dashes))
+				x.defNat("uuidBufLen", c20ByteArrayLen(x, "uuid", fd))
+				if hexTable == "" {
+					x.fail("uuid.ToString: no hex table indexed")
+				} else if e := x.valueSpec("uuid", hexTable); e != nil {
+					if s, ok := c20ByteTable(x, "uuid", e); ok {
+						var vs []uint64
+						for _, c := range []byte(s) {
+							vs = append(vs, uint64(c))
+						}
+						x.defRaw("def halfbyte2hexchar : List Nat := " + c20NatList(vs))
+					} else {
+						x.fail("uuid.%s is not a byte table", hexTable)
 					}
-					x.defRaw("def halfbyte2hexchar : List Nat := " + c20NatList(vs))
-				} else {
-					x.fail("uuid.%s is not a byte table", hexTable)
 				}
 			}
+		})
+
+		// ---- the formatters write to nothing but their own locals (they run on many request goroutines at once) ----
+		var shared []string
+		for _, fn := range [][2]string{{"logger", "atoi"}, {"logger", "hostport"}, {"logger", "lex"}, {"proxy", "i32toa"}, {"proxy", "uint16base16"}, {"uuid", "ToString"}} {
+			if fd := x.funcDecl(fn[0], "", fn[1]); fd != nil {
+				shared = append(shared, c20SharedWrites(x, fn[0], fd)...)
+			}
 		}
+		x.defStrList("formatterSharedWrites", shared)
+		x.defStrList("pinNotes", pinNotes)
 		return nil
 	})
 }
@@ -430,6 +541,120 @@ func init() {
 var c20Calendar = map[string]bool{"Year": true, "Month": true, "Day": true, "Hour": true, "Minute": true, "Second": true,
 	"Nanosecond": true, "Date": true, "Clock": true, "YearDay": true, "Weekday": true, "ISOWeek": true, "Format": true,
 	"AppendFormat": true, "String": true, "Zone": true, "MarshalText": true, "MarshalJSON": true}
+
+// methods that change the value they are called on (http.Header, url.Values, io.Reader/Writer/Closer, bytes.Buffer)
+var c20Mutating = map[string]bool{"Set": true, "Add": true, "Del": true, "Write": true, "WriteString": true, "WriteByte": true,
+	"Read": true, "Close": true, "Reset": true, "Truncate": true, "ParseForm": true, "ParseMultipartForm": true,
+	"SetBasicAuth": true, "AddCookie": true}
+
+// c20SharedWrites: assignments in fd (helpers followed) whose target is a package-level variable, or an element
+// of a local that merely aliases a package-level slice or map (`b := table`, `b := table[:]`).
+func c20SharedWrites(x *X, dir string, fd *ast.FuncDecl) []string {
+	pkgVars := map[string]bool{} // name -> true when slice/map/pointer-like (aliasing on plain assignment)
+	for _, f := range x.files(dir) {
+		for _, d := range f.Decls {
+			gd, ok := d.(*ast.GenDecl)
+			if !ok || gd.Tok != token.VAR {
+				continue
+			}
+			for _, sp := range gd.Specs {
+				vs := sp.(*ast.ValueSpec)
+				for i, n := range vs.Names {
+					refLike := false
+					var t ast.Expr = vs.Type
+					if t == nil && i < len(vs.Values) {
+						switch v := vs.Values[i].(type) {
+						case *ast.CompositeLit:
+							t = v.Type
+						case *ast.CallExpr: // []byte("…"), make(…), new(…)
+							if at, ok := v.Fun.(*ast.ArrayType); ok {
+								t = at
+							} else {
+								refLike = true
+							}
+						case *ast.UnaryExpr:
+							refLike = v.Op == token.AND
+						}
+					}
+					switch tt := t.(type) {
+					case *ast.ArrayType:
+						refLike = tt.Len == nil
+					case *ast.MapType, *ast.StarExpr, *ast.ChanType:
+						refLike = true
+					}
+					pkgVars[n.Name] = refLike
+				}
+			}
+		}
+	}
+	_, params, locals := x.LocalNames(fd)
+	local := map[string]bool{}
+	for _, n := range append(params, locals...) {
+		local[n] = true
+	}
+	alias := map[string]bool{}
+	var out []string
+	root := func(e ast.Expr) (string, bool) { // root identifier, and whether the target is an element / field of it
+		inner := false
+		for {
+			switch v := e.(type) {
+			case *ast.SelectorExpr:
+				e, inner = v.X, true
+			case *ast.IndexExpr:
+				e, inner = v.X, true
+			case *ast.StarExpr:
+				e, inner = v.X, true
+			case *ast.SliceExpr:
+				e, inner = v.X, true
+			case *ast.ParenExpr:
+				e = v.X
+			case *ast.Ident:
+				return v.Name, inner
+			default:
+				return "", inner
+			}
+		}
+	}
+	check := func(lhs ast.Expr, stmt ast.Node) {
+		name, inner := root(lhs)
+		switch {
+		case name == "":
+		case local[name] && alias[name] && inner:
+			out = append(out, fd.Name.Name+": writes through a local that aliases a package-level variable")
+		case !local[name]:
+			if _, isPkg := pkgVars[name]; isPkg {
+				out = append(out, fd.Name.Name+": writes to a package-level variable")
+			}
+		}
+	}
+	x.WalkInlined(dir, fd, func(n ast.Node) bool {
+		switch v := n.(type) {
+		case *ast.AssignStmt:
+			for _, l := range v.Lhs {
+				check(l, v)
+			}
+			if len(v.Lhs) == len(v.Rhs) {
+				for i, l := range v.Lhs {
+					if id, ok := l.(*ast.Ident); ok && local[id.Name] {
+						r := v.Rhs[i]
+						if se, ok := r.(*ast.SliceExpr); ok {
+							r = se.X
+						}
+						if rid, ok := c20Paren(r).(*ast.Ident); ok && !local[rid.Name] && pkgVars[rid.Name] {
+							alias[id.Name] = true
+						} else {
+							delete(alias, id.Name)
+						}
+					}
+				}
+			}
+		case *ast.IncDecStmt:
+			check(v.X, v)
+		}
+		return true
+	})
+	return c20Uniq(out)
+}
 
 // roles of the identifiers in scope: the event, values that are e.End, values that are e.End.UTC()
 type c20Env struct{ event, end, utc map[string]bool }
@@ -549,6 +774,9 @@ func (w *c20TimeWalk) walk(body ast.Node, env c20Env, depth int) {
 			}
 		case *ast.CallExpr:
 			if sel, ok := v.Fun.(*ast.SelectorExpr); ok {
+				if c20Mutating[sel.Sel.Name] && c20RootedIn(sel.X, env.event) {
+					w.eventWrites = append(w.eventWrites, w.field+": "+sel.Sel.Name+" on a value reached through the event")
+				}
 				if env.isEnd(sel.X) {
 					w.endUses = append(w.endUses, sel.Sel.Name)
 					if c20Calendar[sel.Sel.Name] {
@@ -703,6 +931,22 @@ func c20IsLenZero(cond ast.Expr, buf string) bool {
 		return isLen(be.X) && lit(be.Y, "0")
 	case token.LSS:
 		return isLen(be.X) && lit(be.Y, "1")
+	}
+	return false
+}
+
+// c20IsLenNonZero: `<buf>.Len() != 0`, `<buf>.Len() > 0`, `<buf>.Len() >= 1`, `0 < <buf>.Len()`
+func c20IsLenNonZero(cond ast.Expr, buf string) bool {
+	be, ok := c20Paren(cond).(*ast.BinaryExpr)
+	if !ok {
+		return false
+	}
+	flip := map[token.Token]token.Token{token.NEQ: token.EQL, token.GTR: token.LEQ, token.GEQ: token.LSS}
+	if op, ok := flip[be.Op]; ok {
+		return c20IsLenZero(&ast.BinaryExpr{X: be.X, Op: op, Y: be.Y}, buf)
+	}
+	if be.Op == token.LSS { // 0 < len
+		return c20IsLenZero(&ast.BinaryExpr{X: be.Y, Op: token.LEQ, Y: be.X}, buf)
 	}
 	return false
 }
